@@ -37,6 +37,35 @@ def _idx_atoms(extra=()):
 
 
 # ------------------------------------------------------------------ R-C16-1
+def _shuffle_comprehension(init):
+    """`self.data_points = [p[perm] for p in self.data_points]` form of the shuffle: (perm shared?, text) or None"""
+    from ..util import single_defs
+    tmp = single_defs(init.node)
+    for a in ast.walk(init.node):
+        if not (isinstance(a, ast.Assign) and any(dump(t) == "self.data_points" for t in a.targets)):
+            continue
+        v = a.value
+        if isinstance(v, ast.Call) and attr_chain(v.func) in ("list", "tuple") and len(v.args) == 1:
+            v = v.args[0]
+        if not (isinstance(v, (ast.ListComp, ast.GeneratorExp)) and len(v.generators) == 1 and not v.generators[0].ifs):
+            continue
+        g = v.generators[0]
+        over_all = dump(g.iter) in ("self.data_points", "range(len(self.data_points))")
+        tgt = dump(g.target)
+        elt = v.elt
+        base_ok = isinstance(elt, ast.Subscript) and dump(elt.value) in (tgt, f"self.data_points[{tgt}]")
+        if not (over_all and base_ok):
+            continue
+        idx = elt.slice
+        if isinstance(idx, ast.Name) and idx.id in tmp and isinstance(tmp[idx.id], ast.Call) and ends(attr_chain(tmp[idx.id].func), "randperm") and tgt not in dump(tmp[idx.id]):
+            arg = tmp[idx.id].args[0] if tmp[idx.id].args else None
+            if arg is None or not dump(arg).startswith("len(self.data_points[0]"):
+                return False, dump(a)[:100] + f" with a permutation of length {dump(arg) if arg is not None else None}"
+            return True, dump(a)[:120]
+        return False, dump(a)[:120] + " (index evaluated per element)"
+    return None
+
+
 def r1_points_dataset(repo: Repo, rep):
     R = rep.rule("R-C16-1", "PointsDataset: one permutation for every element, one window on every element, windows tile [0,l), len = ceil/floor(l/bs)",
                  floor=6, why="different permutations/windows on inputs and targets break the i-th input / i-th target pairing")
@@ -54,6 +83,11 @@ def r1_points_dataset(repo: Repo, rep):
         stores = [e for e in p.events if e.kind == "store" and e.raw is not None and dump(e.raw.value) == "self.data_points"]
         if shuf and shuf[0]:
             seen_shuffle = True
+            comp = _shuffle_comprehension(init)
+            if not stores and comp is not None:
+                shared, detail = comp
+                rep.check(R, shared, init.site(), init.fq, "every element is indexed with ONE permutation evaluated before the comprehension", detail, detail)
+                continue
             if len(stores) != 1:
                 rep.violation(R, init.site(), init.fq, "every element is permuted in one loop", f"{len(stores)} stores into self.data_points", f"{len(stores)} stores")
                 continue
@@ -449,6 +483,10 @@ def r2b_windows_unique(repo: Repo, rep):
                 if p.ret is RAISE:
                     continue
                 txt = dump(p.ret)
+                for name, val in sorted(p.attrs.items(), key=lambda kv: -len(dump(kv[1]))):
+                    # a factor spelled as the value just stored into the attribute IS that attribute
+                    if len(dump(val)) > len(name):
+                        txt = txt.replace(dump(val), name)
                 factors = sorted(x.strip() for x in txt.split("*"))
                 ok = ok and len(factors) == 2 and radix in factors
                 detail += f"; __len__ = {txt}"
@@ -846,6 +884,8 @@ def run(repo: Repo, rep):
     r2b_windows_unique(repo, rep)
     r2c_shared_trunk(repo, rep)
     r4_full_dataset(repo, rep)
+    from .c04 import r5_reductions  # the error of a data batch is computed out of place: writing it into the batch's target tensor overwrites the stored data that later batches are cut from
+    r5_reductions(repo, rep)
 
 
 _D = "src/torchphysics/utils/data/dataloader.py"
